@@ -105,6 +105,7 @@ class Engine(OpsMixin, ExprMixin, CallMixin, StmtMixin, BuiltinsMixin):
         self.splitlines_axioms = None
         self._ufs = {}
         self._comp_cache = {}
+        self._elems_done = set()
         self.lemmas_used = set()
         self.using_lemma = 0
         self.heap_reads = set()
@@ -197,6 +198,8 @@ class Engine(OpsMixin, ExprMixin, CallMixin, StmtMixin, BuiltinsMixin):
         n0 = len(self.vcs)
         self.axioms = []
         self.case_splits = []
+        self._elems_done = set()
+        self._comp_cache = {}
         st = State()
         st.ghost["__module__"] = py(module)
         st.ghost["__func__"] = py(func.__qualname__)
@@ -218,6 +221,10 @@ class Engine(OpsMixin, ExprMixin, CallMixin, StmtMixin, BuiltinsMixin):
             v = self.fresh(ty, p)
             env[p] = v
             inputs[p] = v
+        for g, gty in c.ghost.items():
+            gv = self.fresh(self.reg.parse(gty), g)
+            env[g] = gv
+            inputs[g] = gv
         st.env = dict(env)
         self.current_inputs = {k: v.t for k, v in inputs.items()}
         if c.ghost_init is not None:
@@ -309,6 +316,8 @@ class Engine(OpsMixin, ExprMixin, CallMixin, StmtMixin, BuiltinsMixin):
     def verify_lemma(self, lem, prop):
         self.axioms = []
         self.case_splits = []
+        self._elems_done = set()
+        self._comp_cache = {}
         self.vc_prefix = f"{prop}/lemma"
         st = State()
         st.ghost["__module__"] = py(sys.modules[lem.fn.__module__])
